@@ -904,6 +904,44 @@ def tie_stalled_consumer(ctx, only=None):
                                f"{next((t for t in want if t not in set(main)), None)}")
 
 
+JUNK_DEEP = {
+    # junk nested deeper than any JSON parser accepts: the parsers raise RecursionError / a depth error, not a syntax error
+    "deep-open-arrays": b"[" * 3000, "deep-open-objects": b'{"a":' * 3000, "deep-balanced-arrays": b"[" * 3000 + b"]" * 3000,
+}
+
+
+async def _deep_junk_run(junk, chunk):
+    proc = FakeProcess()
+    with patched_open_process(proc):
+        client = new_client()
+        async with client:
+            lines = [good_line("res", 1, "")["raw"], junk, good_line("notif", 2, "")["raw"], good_line("res", 3, "")["raw"]]
+            data = b"".join(r + b"\n" for r in lines)
+            for i in range(0, len(data), chunk):
+                proc.stdout.feed(data[i:i + chunk])
+            main = []
+            with anyio.move_on_after(10):
+                while len(main) < 3:
+                    main.append(raw_tag_of(await client._incoming_recv.receive()))
+            proc.stdout.close()
+    return main
+
+
+def tie_deep_junk(ctx, only=None):
+    """'a junk line is dropped alone' - also one that no JSON parser can even descend into (the real reader only: the
+    extracted decoder model is not asked to parse 3000 levels)."""
+    plans = [only] if only else [(k, c) for k in JUNK_DEEP for c in (1 << 20, 777)]
+    for k, chunk in plans:
+        main = anyio.run(_deep_junk_run, JUNK_DEEP[k], chunk)
+        case = {"deep_junk": k, "chunk_bytes": chunk}
+        ctx.case(case, nontrivial=True)
+        ctx.count("deep-junk")
+        ctx.spec_total += 1
+        if main != [1, 2, 3]:
+            ctx.spec_violation("main:" + (classify([1, 2, 3], main) or "differs") + ":after-a-deeply-nested-junk-line", case,
+                               f"3 well-formed lines around the junk line, delivered tags {main}")
+
+
 def tie_exited_child(ctx):
     """What the child wrote before it exited is delivered like the output of a child that stays (one-shot servers, a crash
     right after the last answer): same stream, same chunking, exit status present vs absent."""
@@ -960,6 +998,7 @@ def explore(ctx, drv):
     tie_text_chunks(ctx, drv)
     tie_exited_child(ctx)
     tie_stalled_consumer(ctx)
+    tie_deep_junk(ctx)
     tie_request_streams(ctx)
     if ctx.thorough:
         tie_real_child(ctx, drv)
@@ -998,6 +1037,11 @@ def run(ctx):
 def replay(ctx, data):
     drv = RawDriver(lib.Driver("C05"))
     case = data.get("case", {})
+    if "deep_junk" in case:
+        tie_deep_junk(ctx, only=(case["deep_junk"], case["chunk_bytes"]))
+        for f in ctx.spec_fail:
+            print("REPRODUCED", f["class"], f["detail"])
+        return 1 if ctx.spec_fail else 0
     if "consumer_stalls_for_s" in case:
         tie_stalled_consumer(ctx, only=(case["lines_written_at_once"], case["consumer_stalls_for_s"]))
         for f in ctx.spec_fail:
